@@ -207,6 +207,45 @@ class C01(EvalProp):
                     cur = nxt
                     continue
                 c0 = r.choice(conts)
+                if c0[0] == 'a' and r.random() < 0.35:
+                    # a union of signed indexes, slices and wildcards (the first subscript not the wildcard)
+                    subs, texts = [], []
+                    for j in range(r.randint(1, 3)):
+                        kind = r.choice('iis' if j == 0 else 'iisw')
+                        if kind == 'i':
+                            n_ = r.randint(-len(c0[1]) - 1, len(c0[1]) + 1)
+                            t_ = ('+' if n_ >= 0 and r.random() < 0.15 else '') + str(n_)
+                            subs.append(('i', [ord(ch) for ch in t_], n_))
+                            texts.append(t_)
+                        elif kind == 'w':
+                            subs.append(('w',))
+                            texts.append('*')
+                        else:
+                            bs = [r.choice([None, None, r.randint(-4, 4)]) for _ in range(3)]
+                            three = r.random() < 0.6
+                            t_ = ':'.join('' if b_ is None else str(b_) for b_ in (bs if three else bs[:2]))
+                            subs.append(('s', [ord(ch) for ch in ('' if bs[0] is None else str(bs[0]))], [ord(ch) for ch in ('' if bs[1] is None else str(bs[1]))],
+                                         ([ord(ch) for ch in ('' if bs[2] is None else str(bs[2]))] if three else None), bs, three))
+                            texts.append(t_)
+                    text += ('..' if rec else '') + '[' + ','.join(texts) + ']'
+                    spec.append((4, 6, [sb[:4] if sb[0] == 's' else sb[:2] if sb[0] == 'i' else sb for sb in subs]) if rec else
+                                (6, [sb[:4] if sb[0] == 's' else sb[:2] if sb[0] == 'i' else sb for sb in subs]))
+                    nxt = []
+                    for v in cur:
+                        if v[0] != 'a':
+                            continue
+                        ln = len(v[1])
+                        for sb in subs:
+                            if sb[0] == 'i':
+                                idxs = py_index_ref(ln, sb[2])
+                            elif sb[0] == 'w':
+                                idxs = list(range(ln))
+                            else:
+                                bs, three = sb[4], sb[5]
+                                idxs = py_slice_ref(ln, bs[0], bs[1], 1 if (not three or bs[2] is None) else bs[2])
+                            nxt += [v[1][j2] for j2 in idxs]
+                    cur = nxt
+                    continue
                 if c0[0] == 'a':
                     n_ = r.randint(0, len(c0[1]) + 1)
                     digits = ('0' * r.choice([0, 0, 1])) + str(n_)
